@@ -199,6 +199,11 @@ impl TransformerContext {
                 // registered early but not positioned yet: referrers must wait and be retried
                 return Ok(None);
             }
+            if target_el.has_pending_geometry() {
+                // the target is registered but not positioned yet: the instance itself
+                // must wait and be retried (it would contribute no box otherwise)
+                return Err(SvgdxError::MissingBoundingBox(target_el.to_string()));
+            }
             let translate_x = el.get_attr("x");
             let translate_y = el.get_attr("y");
             if translate_x.is_some() || translate_y.is_some() {
